@@ -110,10 +110,22 @@ class Zoo:
         if kind == "string":
             return self.rng.choice(['"a${b}c"', "''\n" + ind + "  line1\n" + ind + "  ${b} line2\n" + ind + "''", '"a\\nb"', "''x''"])
         if kind == "inherit":
-            return None  # handled by document()
+            # as a *member* (document() puts it into a set or let): plain and `(source)` forms, the source
+            # possibly spanning several lines, names separated by arbitrary gaps
+            names = self.rng.sample(["a", "b", "lib", "pkgs", "zz"], self.rng.randint(1, 3))
+            out = "inherit"
+            if self.rng.random() < 0.6:
+                src = self.rng.choice([
+                    "lib", "pkgs.lib", "import ./x.nix { }", "import ./x.nix {\n" + ind + "  inherit lib;\n" + ind + "}",
+                    "{ a = 1; b = 2; }", "{\n" + ind + "  a = 1;\n" + ind + "}", "f {\n" + ind + "  x = " + self.lit() + ";\n" + ind + "}",
+                ])
+                out += g() + "(" + src + ")"
+            for n in names:
+                out += g() + n
+            return out
         raise ValueError(kind)
 
-    KINDS = ["binop", "if", "apply", "list", "set", "let", "with", "assert", "lambda", "select", "has_attr", "unary", "paren", "string", "merge"]
+    KINDS = ["binop", "if", "apply", "list", "set", "let", "with", "assert", "lambda", "select", "has_attr", "unary", "paren", "string", "merge", "inherit"]
 
     MERGE_NAMES = ["enable", "port", "host", "workers", "user", "group", "extraArgs", "package", "q", "zz"]
 
@@ -150,6 +162,16 @@ class Zoo:
         kind = rng.choice(self.KINDS)
         if kind == "merge":
             return self.merge_document()
+        if kind == "inherit":
+            self.slots = []
+            self.extra = {}
+            in_let = rng.random() < 0.3
+            member = self.construct("inherit", "    ")
+            if in_let:
+                text = "let\n  " + member + ";\n  k = 1;\nin\n{\n  x = k;\n}\n"
+            else:
+                text = "{\n  pre = 1;\n  " + member + ";\n  post = 2;\n}\n"
+            return text, {"construct": "inherit", "place": "let_layer" if in_let else "set", "gaps": sorted(set(self.slots)), "gap_seq": list(self.slots)}
         place = rng.choice(["binding", "binding", "binding", "toplevel", "let_binding", "list_item"])
         self.slots = []
         self.extra = {}
